@@ -94,6 +94,41 @@ func c11(c *Ctx) {
 			}
 		}
 		c.Expect(nh == 3, nil, nil, "three-header-closers", "expected three guarded closes of the header channel")
+		// the stream-initialisation hook run by the writer fails a stream (cleanup + error) exactly when the transport is closing
+		ns := c.fn(tr, "http2Client.NewStream")
+		var initFn *ssa.Function
+		for _, a := range ns.AnonFuncs {
+			if len(a.Params) == 1 && len(callsIn(a, CalleeX("sync", "Cond.Signal"))) == 1 {
+				initFn = a
+			}
+		}
+		if c.Expect(initFn != nil, nil, ns, "init-hook", "the stream-initialisation hook was not found") {
+			closing := Cmp(FieldLoad(c.field(tr, "http2Client", "state")), token.EQL, ConstOfObj(c.konst(tr, "closing")))
+			nFail := 0
+			for _, r := range returnsOf(initFn) {
+				if r.Block() == initFn.Recover {
+					continue
+				}
+				if ConstNil(r.Results[0]) {
+					c.Unreachable(r, "init:closing-transport-never-accepts-the-stream", closing)
+				} else {
+					nFail++
+					c.MustFact(r, "init:stream-failed-only-when-closing", closing)
+				}
+			}
+			c.Expect(nFail == 1, nil, initFn, "init:closing-arm", "the stream-initialisation hook has no refusing arm for a closing transport")
+			for _, b := range initFn.Blocks {
+				for _, in := range b.Instrs {
+					if call, ok := in.(*ssa.Call); ok && !call.Call.IsInvoke() && call.Call.StaticCallee() == nil {
+						if _, isB := call.Call.Value.(*ssa.Builtin); !isB {
+							if sig, ok := call.Call.Value.Type().Underlying().(*types.Signature); ok && sig.Params().Len() == 1 && isErrorType(sig.Params().At(0).Type()) {
+								c.MustFact(in, "init:cleanup-only-when-closing", closing)
+							}
+						}
+					}
+				}
+			}
+		}
 		// a second closeStream waits for the first to finish instead of returning early with half-set state
 		for _, b := range blocksWhere(cs, Cmp(CallRes(Callee(tr, "Stream.swapState"), 0), token.EQL, done)) {
 			for _, in := range b.Instrs {
